@@ -286,6 +286,8 @@ class Exec:
             r = getattr(L, f)(xs[0], **kw)
         elif f == "where":
             c = dec_arr(s["cond"]["sh"], s["cond"]["v"])
+            if s.get("cs") in ("i8", "i1", "f8"):        # the condition spelled as a 0/1 array of another dtype
+                c = c.astype({"i8": np.int64, "i1": np.int8, "f8": np.float64}[s["cs"]])
             r = L.where(c, xs[0], xs[1], **kw)
         elif f == "concatenate":
             r = L.concatenate(xs, axis=s["axis"], **kw)
